@@ -41,6 +41,8 @@ type Cfg struct {
 	SaveFailOnly int `json:"saveFailOnly"`
 	// CtrFailOnly: the counter store refuses exactly this SetSeqNum of the incoming counter (0: none)
 	CtrFailOnly int `json:"ctrFailOnly"`
+	// EvFalse: the application's state-change callbacks return false (they consume the event: callbacks registered later are not called)
+	EvFalse bool `json:"evFalse"`
 	// Stamp: the application registers an outgoing handler that amends every message (sets SenderSubID), the documented purpose
 	// of HandleOutgoing: what is transmitted, stored and later retransmitted is the amended message
 	Stamp bool `json:"stamp"`
@@ -270,6 +272,20 @@ func NewRig(cfg Cfg) (*Rig, error) {
 	if cfg.CtrFailOnly > 0 {
 		cs = &failOnceCounter{CounterStorage: cs, only: cfg.CtrFailOnly}
 	}
+	// one options value for the whole application, as the repository's own tests and examples have it: a session of the OTHER
+	// role is constructed from it first (an initiating one with an encryption method of its own, an accepting one with limits
+	// of its own) and never run; what the session under test accepts and sends must not depend on that sibling
+	opts := Opts(allowed)
+	sibStore := memory.NewStorage()
+	if cfg.Role == "acceptor" {
+		sh := simplefixgo.NewInitiatorHandler(ctx, fixgen.FieldMsgType, cfg.Buf)
+		_, _ = session.NewInitiatorSession(sh, opts, &session.LogonSettings{TargetCompID: "SIBT", SenderCompID: "SIBS", HeartBtInt: 7,
+			EncryptMethod: "1", CloseTimeout: time.Second}, sibStore, sibStore)
+	} else {
+		sh := simplefixgo.NewAcceptorHandler(ctx, fixgen.FieldMsgType, cfg.Buf)
+		_, _ = session.NewAcceptorSession(opts, sh, &session.LogonSettings{LogonTimeout: time.Second, CloseTimeout: time.Second,
+			HeartBtLimits: &session.IntLimits{Min: 3, Max: 4}}, func(*session.LogonSettings) error { return errors.New("sibling") }, sibStore, sibStore)
+	}
 	var err error
 	if cfg.Role == "acceptor" {
 		r.H = simplefixgo.NewAcceptorHandler(ctx, fixgen.FieldMsgType, cfg.Buf)
@@ -277,7 +293,7 @@ func NewRig(cfg Cfg) (*Rig, error) {
 			r.H.HandleIncoming("D", func([]byte) bool { return true })
 			r.removeID = r.H.HandleIncoming("1", func([]byte) bool { return true })
 		}
-		r.S, err = session.NewAcceptorSession(Opts(allowed), r.H, &session.LogonSettings{
+		r.S, err = session.NewAcceptorSession(opts, r.H, &session.LogonSettings{
 			LogonTimeout:  time.Second * 30,
 			CloseTimeout:  time.Duration(cfg.CloseMs) * time.Millisecond,
 			HeartBtLimits: &session.IntLimits{Min: cfg.HbMin, Max: cfg.HbMax},
@@ -296,7 +312,7 @@ func NewRig(cfg Cfg) (*Rig, error) {
 			r.H.HandleIncoming("D", func([]byte) bool { return true })
 			r.removeID = r.H.HandleIncoming("1", func([]byte) bool { return true })
 		}
-		r.S, err = session.NewInitiatorSession(r.H, Opts(allowed), &session.LogonSettings{
+		r.S, err = session.NewInitiatorSession(r.H, opts, &session.LogonSettings{
 			TargetCompID: peerID, SenderCompID: ourID,
 			HeartBtInt: cfg.HbCfg, EncryptMethod: cfg.EncCfg,
 			Username: map[string]string{"": "user", "useronly": "user"}[cfg.Creds], Password: map[string]string{"": "good", "passonly": "good"}[cfg.Creds],
@@ -319,7 +335,7 @@ func NewRig(cfg Cfg) (*Rig, error) {
 			r.mu.Lock()
 			r.events = append(r.events, EvObs{name, r.ms()})
 			r.mu.Unlock()
-			return true
+			return !cfg.EvFalse
 		})
 	}
 	r.H.OnStopped(func() bool {
